@@ -50,21 +50,56 @@ def enum_name(e):
     return e.get("n") if e is not None and e.get("k") == "Ref" and e.get("dk") == "EnumConstant" else None
 
 
+def local_aliases(fn):
+    """local id -> expression it stands for: reference locals, and plain vector locals that are swapped / moved / assigned
+    into a place rooted at a data member (`shells[k].swap(fit)`)."""
+    aliases = {}
+    for st in C.walk_stmt(fn["body"]):
+        if st.get("k") == "Decl":
+            for d in st["d"]:
+                if d.get("init") is not None and (d.get("t") or "").rstrip().endswith("&"):
+                    aliases[d["id"]] = d["init"]
+    for st in C.walk_stmt(fn["body"]):
+        if st.get("k") == "Call" and st.get("n") == "swap" and st.get("obj") is not None and len(st["a"]) == 1:
+            a, o = C.strip_casts(st["a"][0]), C.strip_casts(st["obj"])
+            if a.get("k") == "Ref" and "id" in a and a["id"] not in aliases:
+                aliases[a["id"]] = st["obj"]
+            elif o.get("k") == "Ref" and "id" in o and o["id"] not in aliases:
+                aliases[o["id"]] = st["a"][0]
+        elif st.get("k") == "Call" and st.get("op") == "=" and st.get("obj") is not None and len(st["a"]) == 1:
+            a = C.strip_casts(st["a"][0])
+            while a is not None and a.get("k") in ("Ctor",) and len(a["a"]) == 1:
+                a = C.strip_casts(a["a"][0])
+            if a is not None and a.get("k") == "Call" and a.get("n") == "move" and a["a"]:
+                a = C.strip_casts(a["a"][0])
+            if a is not None and a.get("k") == "Ref" and "id" in a and a["id"] not in aliases and \
+                    "vector" in (a.get("t") or ""):
+                aliases[a["id"]] = st["obj"]
+    return aliases
+
+
 def stored_definitions(ctor):
     """{(member, enumerator): sympy expr in the raw column symbols} from `_data_X[..][ENUM] = expr;` in the constructor."""
     out = {}
     conv = Converter(positive_atoms=True)
+    aliases = local_aliases(ctor)
     for st in C.walk_stmt(ctor["body"]):
+        lhs = rhs = None
         if st.get("k") == "Bin" and st["op"] == "=":
-            m, last = chain_root(st["a"], {})
-            en = enum_name(last) if last is not None else None
-            if m in ("_data_A", "_data_B") and en:
-                env = Env()
-                try:
-                    val = conv.conv(st["b"], env)
-                except AnalysisBroken:
-                    continue
-                out[(m, en)] = val
+            lhs, rhs = st["a"], st["b"]
+        elif st.get("k") == "Call" and st.get("op") == "=" and st.get("obj") is not None and len(st["a"]) == 1:
+            lhs, rhs = st["obj"], st["a"][0]
+        if lhs is None:
+            continue
+        m, last = chain_root(lhs, aliases)
+        en = enum_name(last) if last is not None else None
+        if m in ("_data_A", "_data_B") and en:
+            env = Env()
+            try:
+                val = conv.conv(rhs, env)
+            except AnalysisBroken:
+                continue
+            out[(m, en)] = val
     return out
 
 
@@ -81,12 +116,9 @@ def rule_Q6(chk, prog):
     epar = [p for p in fn["params"] if p["t"].replace("const ", "").strip() == "double"][0]
     E = sp.Symbol("E", **POS)
     # reference locals (const std::vector<double> &fit = _data_A[..]) and plain locals
-    aliases = {}
-    for st in C.walk_stmt(fn["body"]):
-        if st.get("k") == "Decl":
-            for d in st["d"]:
-                if d.get("init") is not None and (d.get("t") or "").rstrip().endswith("&"):
-                    aliases[d["id"]] = d["init"]
+    aliases = local_aliases(fn)
+    helpers = {d["full"].split("(")[0]: d for d in xu.decls if d["kind"] == "function" and d.get("body") is not None and
+               not d.get("cls")}
     used = set()
 
     def atoms(key, e):
@@ -98,6 +130,7 @@ def rule_Q6(chk, prog):
         return None
     conv = Converter(atoms=atoms, positive_atoms=True)
     leaves = []      # (conditions text, returned expr)
+    depth = [0]
 
     def run(stmts, env, conds):
         """Straight-line evaluation with forking at every `if`; returns True when every path returned."""
@@ -128,6 +161,24 @@ def rule_Q6(chk, prog):
                 rf = run(([st["el"]] if st.get("el") is not None else []) + stmts[i + 1:], e_f, conds + ["not " + ct])
                 return True
             elif k == "Return":
+                rx = C.strip_casts(st["x"])
+                callee = helpers.get((rx.get("fn") or "")) if rx is not None and rx.get("k") == "Call" and not rx.get("obj") else None
+                if callee is not None and len(callee["params"]) == len(rx["a"]) and depth[0] < 3:
+                    # a file-local helper evaluating the fit: inline it
+                    e2 = Env()
+                    for p_, a_ in zip(callee["params"], rx["a"]):
+                        if (p_.get("t") or "").rstrip().endswith("&") and "vector" in (p_.get("t") or ""):
+                            aliases[p_["id"]] = a_
+                        else:
+                            try:
+                                e2.vals[("l", p_["id"])] = conv.conv(a_, env)
+                            except AnalysisBroken:
+                                pass
+                    aliases.update(local_aliases(callee))
+                    depth[0] += 1
+                    run(callee["body"]["s"], e2, conds + ["in %s" % callee["name"]])
+                    depth[0] -= 1
+                    return True
                 try:
                     leaves.append((list(conds), conv.conv(st["x"], env), st))
                 except AnalysisBroken:
